@@ -983,7 +983,8 @@ def jack_case(draw, tier, fn):
             dim = {x: max(1, dim[x] - 1) for x in dim}
             shapes = [tuple(dim[x] for x in s) for s in ins]
     ops = [draw(jack_operand(s, k, n, sigma)) for s, k in zip(shapes, kinds)]
-    return {'fn': fn, 'chain': chain, 'subs': subs, 'operands': ops}
+    return {'fn': fn, 'chain': chain, 'subs': subs, 'operands': ops,
+            'fview': [draw(st.sampled_from([False, False, True])) for _ in ops]}
 
 
 def jack_oracle(spec):
@@ -1013,6 +1014,13 @@ def jack_oracle(spec):
             m = np.sum(x) / N
             mu[idx] = m
             dl[idx] = x - m
+        fv = spec.get('fview') or [False]
+        if len(shape) >= 2 and fv[len(pes) % len(fv)]:
+            # same logical matrix, other memory layout (what a transposed view `A.T` of a C-ordered array is)
+            tmp = np.empty(shape[::-1], dtype=object)
+            for idx in np.ndindex(*shape):
+                tmp[idx[::-1]] = pa[idx]
+            pa = tmp.T
         pes.append(pa)
         means.append(mu)
         deltas.append(dl)
